@@ -101,6 +101,8 @@ def oracle(chk, scn, obs, stats):
         di[""] = df[""] = obs["root_ino"]
         overriding = scn["strategy"] == "override" or any(pipe.is_override_answer(a) for a in scn["answers"])
         for i, p in ids_i.items():
+            if init[p][0] == "l" and pipe.link_leads_to_dir(scn["tree"], p):
+                continue            # a link that leads to a directory is a directory to the gatherers
             q = ids_f.get(i)
             if q is None:
                 if not overriding:
